@@ -48,6 +48,20 @@ func gen(t *rapid.T) Case {
 	}
 	isGroup := map[string]bool{"/": true}
 	groupLinks := 0
+	if rapid.IntRange(0, 15).Draw(t, "deepChain") == 0 {
+		// a chain of groups nested deeper than any ordinary tree, with a dataset at its end
+		depth := rapid.IntRange(15, 40).Draw(t, "chainDepth")
+		p := ""
+		for k := 0; k < depth; k++ {
+			p += fmt.Sprintf("/n%d", k%3)
+			c.Ops = append(c.Ops, hist.Op{K: "group", Path: p})
+			groups, objects, all = append(groups, p), append(objects, p), append(all, p)
+			isGroup[p] = true
+		}
+		dp := p + "/leaf"
+		c.Ops = append(c.Ops, hist.Op{K: "dataset", Path: dp, D: &hist.DSpec{Type: "i32", Dims: []uint64{2}}})
+		objects, all = append(objects, dp), append(all, dp)
+	}
 	kinds := []string{"group", "group", "group", "dataset", "dataset", "hard", "hard", "dup", "orphan"}
 	if rapid.IntRange(0, 3).Draw(t, "withSoftExtDense") == 0 { // one case in four uses the link kinds that fall into open findings
 		kinds = append(kinds, "soft", "ext", "densegroup")
